@@ -1,6 +1,8 @@
 import TextxVerif.Proofs.ResolveList
 import TextxVerif.Proofs.Resolve
 import TextxVerif.Proofs.RefList
+import TextxVerif.Proofs.ResolveOrder
+import TextxVerif.Proofs.ResolveSched
 /-!
 # C08 — reference lists keep the textual order of the references
 
@@ -50,6 +52,11 @@ theorem C08_append_false :
       listAfterAppend seq ≠ refs :=
   ⟨[⟨0, 10, 100⟩, ⟨1, 20, 101⟩, ⟨2, 30, 102⟩], [⟨1, 20, 101⟩, ⟨2, 30, 102⟩, ⟨0, 10, 100⟩],
    by decide, by decide, by decide⟩
+
+/-- `listAfterAppend` is not an arbitrary stand-in: it is the closed form of the pinned code
+`attr_value.append(resolved)` executed for every reference in resolution order. -/
+theorem C08_append_spec (seq : List LRef) : listAfterPinned seq = listAfterAppend seq :=
+  listAfterPinned_eq seq
 
 /-! non-vacuity -/
 example : listAfter [⟨1, 20, 101⟩, ⟨2, 30, 102⟩, ⟨0, 10, 100⟩] =
@@ -123,5 +130,141 @@ example : (run [⟨(1, 0), 3, 101⟩, ⟨(1, 1), 9, 200⟩, ⟨(1, 0), 0, 100⟩
 example : (run [⟨(1, 0), 3, 101⟩, ⟨(1, 1), 9, 200⟩, ⟨(1, 0), 0, 100⟩]).values (1, 1) = [200] := by decide
 example : (history [[⟨(1, 0), 0, 100⟩, ⟨(1, 0), 3, 101⟩], [⟨(1, 0), 3, 101⟩, ⟨(1, 0), 0, 100⟩]]).map
     (fun st => st.values (1, 0)) = [[100, 101], [100, 101]] := by decide
+
+/-! ## the keyed model under the real Postponed loop
+
+`tab r` = where reference `r` of the program is written (object / attribute, text position)
+and what its provider finally returns.  `Resolve.loop P n refs []` is the resolver loop of C09
+for an arbitrary monotone provider `P` — the schedule is no longer "some permutation" but the
+sequence the loop really produces, `(loop …).2.reverse`.  One `ReferenceResolver` (hence one
+position dictionary) exists per model file: `f` selects the references of the file the
+resolver belongs to. -/
+open Resolve in
+/-- **Order under the loop, any outcome, any file.** After the loop (successful or not) the
+resolver of a file holds in every list attribute the targets of exactly those of the
+attribute's references that got resolved (= that some resolution order reaches), in textual
+order. -/
+theorem C08_loop_keyed_result (P : Provider) (refs : List Ref) (hnd : refs.Nodup) (n : Nat)
+    (hn : refs.length < n) (tab : Ref → KRef)
+    (hpos : (refs.map tab).Pairwise (fun a b => a.key = b.key → a.pos < b.pos))
+    (f : Ref → Bool) (k : Key) :
+    ∃ keep : Ref → Bool, (∀ r, keep r = true ↔ Derivable P refs r) ∧
+      (run (((loop P n refs []).2.reverse.filter f).map tab)).values k =
+        (ofKey k (((refs.filter keep).filter f).map tab)).map (·.tgt) := by
+  refine ⟨fun r => decide (r ∈ (loop P n refs []).2), ?_, ?_⟩
+  · intro r
+    simp only [decide_eq_true_eq]
+    exact loop_lfp P refs n hn r
+  · refine C08_keyed_order _ _ ?_ (((loop_seq_perm_filter P n refs hnd).filter f).map tab) k
+    exact hpos.sublist ((List.filter_sublist.trans List.filter_sublist).map tab)
+
+open Resolve in
+/-- **Order under the loop, per model file, on success.** -/
+theorem C08_loop_keyed_files (P : Provider) (refs : List Ref) (n : Nat) (tab : Ref → KRef)
+    (hpos : (refs.map tab).Pairwise (fun a b => a.key = b.key → a.pos < b.pos))
+    (hok : (loop P n refs []).1 = []) (f : Ref → Bool) (k : Key) :
+    (run (((loop P n refs []).2.reverse.filter f).map tab)).values k =
+      (ofKey k ((refs.filter f).map tab)).map (·.tgt) :=
+  C08_keyed_order _ _ (hpos.sublist (List.filter_sublist.map tab))
+    (((loop_seq_perm P n refs hok).filter f).map tab) k
+
+open Resolve in
+/-- **Order under the loop** (the reviewer's `C08_loop_keyed`; `refs.Nodup` and the fuel bound
+turned out not to be needed): when loading succeeds, every list attribute holds the targets of
+its references in textual order, the schedule being the one the Postponed loop produces. -/
+theorem C08_loop_keyed (P : Provider) (refs : List Ref) (n : Nat) (tab : Ref → KRef)
+    (hpos : (refs.map tab).Pairwise (fun a b => a.key = b.key → a.pos < b.pos))
+    (hok : (loop P n refs []).1 = []) (k : Key) :
+    (run ((loop P n refs []).2.reverse.map tab)).values k = (ofKey k (refs.map tab)).map (·.tgt) :=
+  C08_keyed_order _ _ hpos ((loop_seq_perm P n refs hok).map tab) k
+
+open Resolve in
+/-- **…and under the loop whose providers ask the resolver** (`needs_to_be_resolved`, RREL):
+stale answers change the rounds in which references resolve, not the lists. -/
+theorem C08_loopQ_keyed (W : Ref → List Wait) (fs0 : List (List CRef)) (hnd : (idsOf fs0).Nodup)
+    (n : Nat) (hn : pendingCount fs0 < n) (tab : Ref → KRef)
+    (hpos : ((idsOf fs0).map tab).Pairwise (fun a b => a.key = b.key → a.pos < b.pos))
+    (hok : pendingCount (loopQ W n fs0 []).1 = 0) (f : Ref → Bool) (k : Key) :
+    (run (((loopQ W n fs0 []).2.reverse.filter f).map tab)).values k =
+      (ofKey k (((idsOf fs0).filter f).map tab)).map (·.tgt) :=
+  C08_keyed_order _ _ (hpos.sublist (List.filter_sublist.map tab))
+    (((loopQ_seq_perm W fs0 hnd n hn hok).filter f).map tab) k
+
+/-! non-vacuity: references 1 and 2 wait for 0, which is written last in the list, so the loop
+resolves `0, 1, 2` while the text has `1, 2, 0`; a program of which one reference is dead -/
+
+/-- reference 0 is free, every other one waits for 0; 9 never resolves -/
+def exP8 : Resolve.Provider where
+  ready S r := decide (r = 0) || (decide (r ≠ 9) && decide (0 ∈ S))
+  mono := by
+    intro S S' r h hr
+    simp only [Bool.or_eq_true, Bool.and_eq_true, decide_eq_true_eq] at hr ⊢
+    rcases hr with h0 | ⟨h9, hS⟩
+    · exact Or.inl h0
+    · exact Or.inr ⟨h9, h 0 hS⟩
+
+def exTab (r : Nat) : KRef := ⟨(7, r / 10), if r = 0 then 100 else 10 * r, 100 + r⟩
+
+example : (Resolve.loop exP8 4 [1, 2, 0] []) = ([], [2, 1, 0]) := by decide
+example : ([1, 2, 0].map exTab).Pairwise (fun a b => a.key = b.key → a.pos < b.pos) := by decide
+example : (run ((Resolve.loop exP8 4 [1, 2, 0] []).2.reverse.map exTab)).values (7, 0) = [101, 102, 100] := by
+  decide
+example : (ofKey (7, 0) ([1, 2, 0].map exTab)).map (·.tgt) = [101, 102, 100] := by decide
+example : ([1, 2, 9, 0].map exTab).Pairwise (fun a b => a.key = b.key → a.pos < b.pos) := by decide
+/-- failing load: 9 stays pending, the list holds the others in textual order -/
+example : (Resolve.loop exP8 5 [1, 2, 9, 0] []).1 = [9] ∧
+    (run ((Resolve.loop exP8 5 [1, 2, 9, 0] []).2.reverse.map exTab)).values (7, 0) = [101, 102, 100] := by
+  decide
+/-- two files: the resolver of the file holding references `< 2` sees only those -/
+example : (run (((Resolve.loop exP8 4 [1, 2, 0] []).2.reverse.filter (· < 2)).map exTab)).values (7, 0) =
+    [101, 100] := by decide
+
+/-! ## every postponement schedule, literally
+
+`Resolve.Oracle` = any provider behaviour: the answer to a call ("`Postponed`" or not) may depend
+on the whole history of provider calls of the load, hence on the round, on a counter, on state —
+"which references return Postponed on which resolution rounds".  `loopO` is the resolver loop
+under such an oracle. -/
+open Resolve in
+/-- **Order under every schedule, per model file.** Whatever the providers answer on whichever
+call: if the load succeeds, the resolver of every file (`f` = "belongs to the file") holds in
+every list attribute the targets of the attribute's references in textual order. -/
+theorem C08_schedule_keyed (O : Oracle) (refs : List Ref) (n : Nat) (tab : Ref → KRef)
+    (hpos : (refs.map tab).Pairwise (fun a b => a.key = b.key → a.pos < b.pos))
+    (hok : (loopO O n [] refs []).1 = []) (f : Ref → Bool) (k : Key) :
+    (run (((loopO O n [] refs []).2.reverse.filter f).map tab)).values k =
+      (ofKey k ((refs.filter f).map tab)).map (·.tgt) :=
+  C08_keyed_order _ _ (hpos.sublist (List.filter_sublist.map tab))
+    (((loopO_seq_perm O n refs hok).filter f).map tab) k
+
+open Resolve in
+/-- **…and when the load fails:** the lists hold the targets of the references that got
+resolved, in textual order (nothing foreign, nothing twice). -/
+theorem C08_schedule_keyed_result (O : Oracle) (refs : List Ref) (hnd : refs.Nodup) (n : Nat)
+    (tab : Ref → KRef) (hpos : (refs.map tab).Pairwise (fun a b => a.key = b.key → a.pos < b.pos))
+    (f : Ref → Bool) (k : Key) :
+    (run (((loopO O n [] refs []).2.reverse.filter f).map tab)).values k =
+      (ofKey k (((refs.filter (fun r => decide (r ∈ (loopO O n [] refs []).2))).filter f).map tab)).map
+        (·.tgt) := by
+  have hp : ((loopO O n [] refs []).1 ++ (loopO O n [] refs []).2).Perm refs := by
+    simpa using loopO_perm O n [] refs []
+  have hres : (loopO O n [] refs []).2.Nodup := (List.nodup_append.1 (hp.nodup_iff.2 hnd)).2.1
+  have hperm : (loopO O n [] refs []).2.reverse.Perm
+      (refs.filter (fun r => decide (r ∈ (loopO O n [] refs []).2))) := by
+    refine (List.perm_ext_iff_of_nodup ((List.reverse_perm _).nodup_iff.2 hres)
+      (hnd.sublist List.filter_sublist)).2 ?_
+    intro x
+    simp only [List.mem_reverse, List.mem_filter, decide_eq_true_eq]
+    exact ⟨fun hx => ⟨hp.subset (List.mem_append_right _ hx), hx⟩, fun h => h.2⟩
+  exact C08_keyed_order _ _ (hpos.sublist ((List.filter_sublist.trans List.filter_sublist).map tab))
+    ((hperm.filter f).map tab) k
+
+/-! non-vacuity: the first reference of `0 1 2` is postponed once (a counting provider) -/
+example : (Resolve.loopO (Resolve.countOracle fun r => if r = 0 then 1 else 0) 4 [] [0, 1, 2] []) =
+    ([], [0, 2, 1]) := by decide
+example : ([0, 1, 2].map fun r => (⟨(7, 0), 3 * r, 100 + r⟩ : KRef)).Pairwise
+    (fun a b => a.key = b.key → a.pos < b.pos) := by decide
+example : (run ((Resolve.loopO (Resolve.countOracle fun r => if r = 0 then 1 else 0) 4 [] [0, 1, 2] []).2.reverse.map
+    fun r => (⟨(7, 0), 3 * r, 100 + r⟩ : KRef))).values (7, 0) = [100, 101, 102] := by decide
 
 end RefList
